@@ -63,7 +63,7 @@ def _membership(ctx):
                   workers=8 if quick else 12, timeout=900 if quick else 3000, tags=("REPLAY",), xmx="12g")
     core.require_actions(res, ["HConnect", "HHeartbeat", "HDisconnect", "HTimeouts", "HResponse"], "membership")
     _tlc_must_hold(ctx, res, "c14:tlc-membership-invariant")
-    sim = run_tlc(ctx, "MCMembership", "MCMembershipSim.cfg", workers=1, simulate=120 if quick else 2500,
+    sim = run_tlc(ctx, "MCMembership", "MCMembershipSim.cfg", workers=1, simulate=40 if quick else 600,
                   depth=30, timeout=600, tags=("REPLAY",))
     _tlc_must_hold(ctx, sim, "c14:tlc-membership-invariant")
     plans = ctx.path("membership.ndjson")
